@@ -13,7 +13,12 @@ dst = os.path.join(HERE, "seeded", sid)
 os.makedirs(dst, exist_ok=True)
 meta = {"id": sid, "breaks": props[0], "checked_against": props}
 # (1) suite
-p = subprocess.run([os.path.join(HERE, "tools", "baseline_check.py"), tree], capture_output=True, text=True, env=dict(os.environ, PYTHONPATH=tree))
+for attempt in range(3):
+    # the suite's own tests.test_recursive_number_partitioning.TestRNP::test_on_random_inputs draws random inputs and fails now and then on the unchanged tree
+    # as well (it compares rnp with the ILP optimum: open finding KF-rnp-subopt), hence the retries
+    p = subprocess.run([os.path.join(HERE, "tools", "baseline_check.py"), tree], capture_output=True, text=True, env=dict(os.environ, PYTHONPATH=tree))
+    if p.returncode == 0:
+        break
 meta["suite_on_changed_tree"] = p.stdout.strip().splitlines()
 meta["suite_ok"] = p.returncode == 0
 # (2) demo
